@@ -63,6 +63,8 @@ impl ApiService {
                 Err(e) => format!("Failed to get peer {}", e),
             };
             info!("accept connection: {}", peer);
+            #[cfg(undermoon_verif)]
+            let sock = crate::common::verif::SimStream::from_tcp(sock);
 
             let curr_session_id = session_id.fetch_add(1, Ordering::SeqCst);
 
